@@ -11,29 +11,87 @@ def AW(run):
     u = run.idx.unit(MOD + '._await_descriptor_upload')
     for c in u.children:
         if c.name == 'hs_desc':
+            CUR['roles'] = roles(u, c)
             return u, c
     raise AnchorVanished('_await_descriptor_upload.hs_desc')
 
 
-def legs(hs):
-    """subtype constant -> list of CFG test nodes comparing subtype with it"""
+ROLES = {}
+
+
+def roles(u, hs):
+    """local names by role: the wait Deferred, the three sets (named after the leg that fills them),
+    the action variable, the event fields, the mode flag"""
+    key = u
+    if key in ROLES:
+        return ROLES[key]
+    up = names_defined_by(u, lambda v: isinstance(v, ast.Call) and dotted(v.func) in ('defer.Deferred', 'Deferred'))
+    if len(up) != 1:
+        raise Undecided('_await_descriptor_upload: the wait Deferred')
+    setnames = names_defined_by(u, lambda v: isinstance(v, ast.Call) and dotted(v.func) == 'set' and not v.args)
     g = cfg_of(hs)
+    act = None
+    for t in g.live:
+        if t.kind == 'test' and isinstance(t.ast, ast.Compare) and isinstance(t.ast.left, ast.Name) and const(t.ast.comparators[0]) in ('UPLOAD', 'UPLOADED', 'FAILED'):
+            act = t.ast.left.id
+    if act is None:
+        raise AnchorVanished('hs_desc: action comparisons')
+    leg_tests = {}
+    for t in g.live:
+        if t.kind == 'test' and isinstance(t.ast, ast.Compare) and dotted(t.ast.left) == act and isinstance(const(t.ast.comparators[0]), str):
+            leg_tests.setdefault(const(t.ast.comparators[0]), []).append(t)
+    byleg = {}
+    for n in g.real_nodes():
+        for a in node_asts(n):
+            if isinstance(a, ast.Call) and callee_attr(a) == 'add' and dotted(receiver(a)) in setnames:
+                for leg, ts in leg_tests.items():
+                    if any(g.edge_dominates(t, 'T', n) for t in ts):
+                        byleg.setdefault(leg, set()).add(dotted(receiver(a)))
+    m = {}
+    for leg, role in (('UPLOAD', 'attempted_uploads'), ('UPLOADED', 'confirmed_uploads'), ('FAILED', 'failed_uploads')):
+        ns = byleg.get(leg, set())
+        if len(ns) != 1:
+            raise Undecided('hs_desc: the set filled on the %s leg (%s)' % (leg, sorted(ns)))
+        m[list(ns)[0]] = role
+    fields = names_defined_by(hs, lambda v: isinstance(v, ast.Call) and callee_attr(v) == 'split' and not v.args)
+    mode = names_defined_by(u, lambda v: 'await_all_uploads' in src(v))
+    r = dict(uploaded=up[0], sets=m, action=act, args=fields[0] if fields else 'args', mode=mode[0] if mode else 'await_all')
+    r['norm'] = dict(list(m.items()) + [(up[0], 'uploaded'), (act, 'subtype'), (r['args'], 'args'), (r['mode'], 'await_all')])
+    ROLES[key] = r
+    return r
+
+
+def legs(hs):
+    """action constant -> list of CFG test nodes comparing the action variable with it"""
+    g = cfg_of(hs)
+    act = roles(hs.parent, hs)['action']
     out = {}
     for t in g.live:
-        if t.kind == 'test' and isinstance(t.ast, ast.Compare) and dotted(t.ast.left) == 'subtype' and isinstance(const(t.ast.comparators[0]), str):
+        if t.kind == 'test' and isinstance(t.ast, ast.Compare) and dotted(t.ast.left) == act and isinstance(const(t.ast.comparators[0]), str):
             out.setdefault(const(t.ast.comparators[0]), []).append(t)
     return g, out
 
 
+CUR = {}
+
+
 def is_mut(a):
-    if isinstance(a, ast.Call):
+    r = CUR.get('roles')
+    if isinstance(a, ast.Call) and r:
         d = dotted(a.func) or ''
-        for s in SETS:
-            if d == s + '.add':
-                return 'add:' + s
-        if d in ('uploaded.callback', 'uploaded.errback'):
-            return d
+        for real, role in r['sets'].items():
+            if d == real + '.add':
+                return 'add:' + role
+        if d == r['uploaded'] + '.callback':
+            return 'uploaded.callback'
+        if d == r['uploaded'] + '.errback':
+            return 'uploaded.errback'
     return None
+
+
+def nsrc(node):
+    """source with local names replaced by their role names"""
+    return norm_src(node, CUR['roles']['norm'])
 
 
 def r15_1(run):
@@ -68,7 +126,7 @@ def r15_1(run):
             ok = False
             for t, lab in gd:
                 call = hm_call(t.ast)
-                arg = src(call.args[0]) if call.args else ''
+                arg = nsrc(call.args[0]) if call.args else ''
                 if lab == 'T' and 'args[1]' in arg:
                     ok = True
             run.ob('R15.1', hs, a, 'only events of this service change the wait [%s: %s]' % (sub, m), ok, slot='own-events:%s:%s' % (sub, m),
@@ -84,10 +142,10 @@ def r15_1(run):
     run.ob('R15.1', hm[0], hm[0].node, 'hostname_matches compares the event address with this service', ok, slot='matcher', message='hostname_matches returns %s' % [src(r.value) for r in rets])
     # event fields: action = field 0, address = field 1, directory = field 3 (control-spec 4.1.25)
     adds = [a for n in g.real_nodes() for a in node_asts(n) if is_mut(a) and is_mut(a).startswith('add:')]
-    ok = bool(adds) and all(src(a.args[0]) == 'args[3]' for a in adds)
-    run.ob('R15.1', hs, hs.node, 'uploads are keyed by the HsDir field (args[3])', ok, slot='hsdir-field', message='sets keyed by %s' % sorted(set(src(a.args[0]) for a in adds)))
-    st = [n for n in walk_unit(hs) if isinstance(n, ast.Assign) and dotted(n.targets[0]) == 'subtype']
-    run.ob('R15.1', hs, hs.node, 'the action is field 0', len(st) == 1 and src(st[0].value) == 'args[0]', slot='action-field', message='subtype = %s' % [src(s.value) for s in st])
+    ok = bool(adds) and all(nsrc(a.args[0]) == 'args[3]' for a in adds)
+    run.ob('R15.1', hs, hs.node, 'uploads are keyed by the HsDir field (args[3])', ok, slot='hsdir-field', message='sets keyed by %s' % sorted(set(nsrc(a.args[0]) for a in adds)))
+    st = [n for n in walk_unit(hs) if isinstance(n, ast.Assign) and dotted(n.targets[0]) == CUR['roles']['action']]
+    run.ob('R15.1', hs, hs.node, 'the action is field 0', len(st) == 1 and nsrc(st[0].value) == 'args[0]', slot='action-field', message='subtype = %s' % [src(s.value) for s in st])
 
 
 def r15_2(run):
@@ -98,14 +156,14 @@ def r15_2(run):
         for a in node_asts(n):
             if is_mut(a) in ('uploaded.callback', 'uploaded.errback'):
                 k += 1
-                gd = g.guarded_by(n, lambda t: dotted(t) == 'uploaded.called')
+                gd = g.guarded_by(n, lambda t: dotted(t) == CUR['roles']['uploaded'] + '.called')
                 ok = any(lab == 'F' for _, lab in gd)
                 run.ob('R15.2', hs, a, 'the wait is fired only if it has not fired yet', ok, slot='once:%s@%d' % (is_mut(a), k),
                        message='%s is not under "not uploaded.called": a later event fires the Deferred again (AlreadyCalledError in the event handler)' % src(a)[:40])
     run.floor('R15.2', 'fire sites of the wait', k, 3)
     # nobody else fires it
     for c in calls_in(u):
-        if dotted(c.func) in ('uploaded.callback', 'uploaded.errback'):
+        if dotted(c.func) in (CUR['roles']['uploaded'] + '.callback', CUR['roles']['uploaded'] + '.errback'):
             run.ob('R15.2', u, c, 'the wait is fired only by the event handler', False, slot='outer-fire', message='_await_descriptor_upload fires the wait itself')
     # success value / failure type
     for n in g.real_nodes():
@@ -125,7 +183,7 @@ def r15_3(run):
         if callee_attr(a) in ('add_event_listener', 'remove_event_listener'):
             ok = len(a.args) == 2 and const(a.args[0]) == 'HS_DESC' and dotted(a.args[1]) == 'hs_desc'
             run.ob('R15.3', u, a, 'subscribe/unsubscribe name the same event and handler', ok, slot='pair:%s' % callee_attr(a), message=src(a))
-    waits = g.nodes_where(lambda n: any(isinstance(a, ast.Yield) and dotted(a.value) == 'uploaded' for a in node_asts(n)))
+    waits = g.nodes_where(lambda n: any(isinstance(a, ast.Yield) and dotted(a.value) == CUR['roles']['uploaded'] for a in node_asts(n)))
     run.floor('R15.3', 'wait sites (yield uploaded)', len(waits), 1)
     for w in waits:
         # normal and exceptional continuation of the wait both pass a removal before leaving
@@ -154,9 +212,9 @@ def r15_4(run):
     u, hs = AW(run)
     g, lg = legs(hs)
     # sets read by a completion test
-    comp_tests = [t for t in g.live if t.kind == 'test' and isinstance(t.ast, ast.Compare) and sum(1 for s in SETS if s in src(t.ast)) >= 2]
+    comp_tests = [t for t in g.live if t.kind == 'test' and isinstance(t.ast, ast.Compare) and sum(1 for s in SETS if s in nsrc(t.ast)) >= 2]
     run.floor('R15.4', 'completion tests', len(comp_tests), 2)
-    read = set(s for t in comp_tests for s in SETS if s in src(t.ast))
+    read = set(s for t in comp_tests for s in SETS if s in nsrc(t.ast))
     for n in g.real_nodes():
         for a in node_asts(n):
             m = is_mut(a)
@@ -170,9 +228,9 @@ def r15_4(run):
             # after this add, on every path to exit, some completion test over both outcome sets is evaluated
             def is_comp(x):
                 return x in comp_tests
-            full = [t for t in comp_tests if 'attempted_uploads' in src(t.ast)]
+            full = [t for t in comp_tests if 'attempted_uploads' in nsrc(t.ast)]
             # "await all" completion: len(failed)+len(confirmed) == len(attempted)
-            allc = [t for t in full if 'failed_uploads' in src(t.ast) and 'confirmed_uploads' in src(t.ast)]
+            allc = [t for t in full if 'failed_uploads' in nsrc(t.ast) and 'confirmed_uploads' in nsrc(t.ast)]
             # must be reachable after the add when await_all is true
             r = g.reachable([s_ for _, s_ in n.succ])
             ok_all = any(t in r for t in allc)
@@ -185,7 +243,8 @@ def r15_4(run):
         for a in node_asts(n):
             if is_mut(a) == 'add:confirmed_uploads':
                 key = src(a.args[0]) if a.args else ''
-                gd = g.guarded_by(n, lambda t: isinstance(t, ast.Compare) and isinstance(t.ops[0], ast.In) and dotted(t.comparators[0]) == 'attempted_uploads'
+                att = [k for k, v in CUR['roles']['sets'].items() if v == 'attempted_uploads'][0]
+                gd = g.guarded_by(n, lambda t: isinstance(t, ast.Compare) and isinstance(t.ops[0], ast.In) and dotted(t.comparators[0]) == att
                                   and src(t.left) == key)
                 run.ob('R15.4', hs, a, 'a confirmation is counted only for an attempted directory (confirmed is a subset of attempted)', any(lab == 'T' for _, lab in gd),
                        slot='confirmed-subset', message='confirmed_uploads can receive a directory that is not in attempted_uploads: the await-all '
@@ -193,25 +252,25 @@ def r15_4(run):
     # failure only when every attempt failed; success needs at least one confirmation
     errs = [n for n in g.real_nodes() for a in node_asts(n) if is_mut(a) == 'uploaded.errback']
     for n in errs:
-        gd = g.guarded_by(n, lambda t: isinstance(t, ast.Compare) and 'failed_uploads' in src(t) and 'attempted_uploads' in src(t) and isinstance(t.ops[0], ast.Eq)
-                          and 'confirmed' not in src(t))
+        gd = g.guarded_by(n, lambda t: isinstance(t, ast.Compare) and 'failed_uploads' in nsrc(t) and 'attempted_uploads' in nsrc(t) and isinstance(t.ops[0], ast.Eq)
+                          and 'confirmed' not in nsrc(t))
         run.ob('R15.4', hs, n.ast, 'creation fails only when every attempted upload failed', any(lab == 'T' for _, lab in gd), slot='fail-guard',
                message='uploaded.errback is not guarded by failed_uploads == attempted_uploads')
     cbs = [n for n in g.real_nodes() for a in node_asts(n) if is_mut(a) == 'uploaded.callback']
     for n in cbs:
         # either on the UPLOADED leg (a confirmation just happened) or guarded by confirmed_uploads being non-empty
         on_uploaded = any(g.edge_dominates(t, 'T', n) for t in lg.get('UPLOADED', []))
-        gd = g.guarded_by(n, lambda t: 'confirmed_uploads' in src(t))
-        has_conf = any(lab == 'T' and dotted(t.ast) == 'confirmed_uploads' for t, lab in gd)
+        gd = g.guarded_by(n, lambda t: 'confirmed_uploads' in nsrc(t))
+        has_conf = any(lab == 'T' and nsrc(t.ast) == 'confirmed_uploads' for t, lab in gd)
         run.ob('R15.4', hs, n.ast, 'success needs at least one confirmed upload', on_uploaded or has_conf, slot='success-needs-confirmation',
                message='uploaded.callback reachable without any confirmed upload')
         # in await-all mode the callback must be behind the all-finished test
-        gd2 = g.guarded_by(n, lambda t: dotted(t) == 'await_all')
+        gd2 = g.guarded_by(n, lambda t: dotted(t) == CUR['roles']['mode'])
         if any(lab == 'T' for _, lab in gd2):
-            gd3 = g.guarded_by(n, lambda t: isinstance(t, ast.Compare) and all(s in src(t) for s in SETS))
+            gd3 = g.guarded_by(n, lambda t: isinstance(t, ast.Compare) and all(s in nsrc(t) for s in SETS))
             run.ob('R15.4', hs, n.ast, 'await-all success only when every attempt has finished', any(lab == 'T' for _, lab in gd3), slot='await-all-guard',
                    message='await-all callback not guarded by the all-finished test')
-    aa = [n for n in walk_unit(u) if isinstance(n, ast.Assign) and dotted(n.targets[0]) == 'await_all']
+    aa = [n for n in walk_unit(u) if isinstance(n, ast.Assign) and dotted(n.targets[0]) == CUR['roles']['mode']]
     ok = len(aa) == 1 and 'await_all_uploads' in src(aa[0].value)
     run.ob('R15.4', u, u.node, 'waiting mode comes from the caller', ok, slot='mode', message='await_all = %s' % [src(a.value) for a in aa])
 
